@@ -422,6 +422,7 @@ func sockRead(sk *sock, b []byte) (int, string, error) {
 
 //go:norace
 func sockWrite(sk *sock, b []byte, dst string) (int, error) {
+	vsim.IOPoint() // the bytes are read only after this scheduling point, as a real write(2) would
 	data := vsim.CloneBytes(b)
 	dst = vsim.CloneString(dst)
 	code := eOK
